@@ -635,7 +635,7 @@ fn gen_script(rng: &mut Rng, c: &mut Case7, doc: &Doc, tree: &Tree, allow_implic
                     }
                     13 if end_side_ok || allow_implicit_special => Op::SetTagName((*rng.pick(&["q", "Q", "x-y", "ab1", "", "1a", "a b"])).to_string()),
                     15 if rng.chance(1, 3) => Op::ClearEndTagHandlers,
-                    14 if end_side_ok && !n.no_content => Op::OnEndTag((0..rng.range(0, 2)).map(|_| crate::mutgen::token_op(rng)).collect()),
+                    14 if end_side_ok && !n.no_content => Op::OnEndTag((0..rng.range(0, 2)).map(|_| crate::mutgen::end_tag_op(rng)).collect()),
                     _ => Op::Before(content(rng)),
                 };
                 // only one of remove/replace per token; no Replace/Remove after each other (undocumented)
